@@ -413,6 +413,7 @@ func init() {
 		ID:    "C17",
 		Level: "exploration",
 		Rule: "seeded cluster runs over 4 assets with deposits, transfers, withdrawal submissions, double spends, network faults and crash/restart; after every finalization on every node the recorded totals of the touched assets are compared with the node's own finalized history and the capacity; at two checkpoints, after each restart and at the end every output record is scanned and the unconsumed value per asset compared with the recorded total; " +
+			"deposits are handed to up to three nodes at once in part of the cases; 25% of the runs are membership-rig histories with pledges funded by XIN deposits, acceptances, removals, custodian updates and one to two universal mints, scanned on every node after every operation; " +
 			"non-trivial = at least one finalization and one accepted transaction finalized everywhere; distinct = canonical-log digests. Mint and node operations need day-long horizons and are not part of these runs.",
 		Components: clusterComponents,
 		Assume:     clusterAssume,
